@@ -1537,15 +1537,22 @@ fn step<const M: usize>(st: &mut St<M>, op: &Op) {
             };
             let shared = SH.with(|s| std::mem::take(&mut *s.borrow_mut()));
             let ops = ops.clone();
-            let (st2, shared) = std::thread::scope(|sc| {
+            // Whether `Bump<M>` *is* Send is a compile-time question decided by the probes of C05 / C20; here the
+            // hand-over is performed regardless (the wrapper keeps this driver compiling whatever the crate declares).
+            struct Hand<T>(T);
+            unsafe impl<T> Send for Hand<T> {}
+            let hand = Hand((st2, shared));
+            let Hand((st2, shared)) = std::thread::scope(|sc| {
                 sc.spawn(move || {
+                    let hand = hand;
+                    let Hand((mut st2, shared)) = hand;
                     rec::set_slice(1);
                     SH.with(|s| *s.borrow_mut() = shared);
                     for op in &ops {
                         step(&mut st2, op);
                     }
                     let shared = SH.with(|s| std::mem::take(&mut *s.borrow_mut()));
-                    (st2, shared)
+                    Hand((st2, shared))
                 })
                 .join()
                 .unwrap()
